@@ -57,7 +57,7 @@ CHECKS = {
  "C06": {
   "level": "model_checking",
   "technique": "TLA+ state machine of the engine (rules, tags, saved image; Impl: address-keyed regex cache + nondeterministic allocator); TLC checks history independence over all histories and exports each for replay on one long-lived Blocker/Engine",
-  "text": "MC_Engine models every public mutator as an action (use/enable/disable tags, add_filter, optimize, discard all regexes, serialize, deserialize, query battery). TLC explores every history of 4 (quick) / 5 (thorough) operations, checks that the Impl layer (regex cache keyed by rule address, rules re-allocated at any free address on every tag change) answers every query with the Ideal answer for the current (rules, tags), under every allocator choice, and exports each history; each is replayed on one long-lived real object in three configurations (optimise off/on, aggressive discard policy) and every query step is compared with the Ideal of a freshly built engine. With the pre-fix deviation switched on, TLC reproduces the stale-regex counterexample (thorough self-test). Long random histories on ~300-rule objects are validated by Trace_C06. The compiled-regex cache has its own timed model (RegexCache.tla: compile on first use, cleanup by interval / idle time, recompile, discard_regex, policy change, clear on retag): TLC checks its design properties on exact ticks (MC_RegexCache), generates operation scripts in simulation mode that are replayed on real engines with real sleeps, and Trace_Regex validates the recorded run (clock readings taken around every call as intervals, three-valued comparisons, subset construction) - every answer in that run is compared with a fresh engine's.",
+  "text": "MC_Engine models every public mutator as an action (use/enable/disable tags, add_filter, optimize, discard all regexes, serialize, deserialize, query battery). TLC explores every history of 4 (quick) / 5 (thorough) operations, checks that the Impl layer (regex cache keyed by rule address, rules re-allocated at any free address on every tag change) answers every query with the Ideal answer for the current (rules, tags), under every allocator choice, and exports each history; each is replayed on one long-lived real object in three configurations (optimise off/on, aggressive discard policy) and every query step is compared with the Ideal of a freshly built engine. With the pre-fix deviation switched on, TLC reproduces the stale-regex counterexample (thorough self-test). Resource loading is part of the state machine (use_resources replaces, add_resource appends and reports acceptance, name/alias collisions resolved by loading order, deserialize keeps the resources): every history over those operations + save/load/discard/query is replayed on a live Engine, redirect answers and add_resource outcomes compared. Long random histories on ~300-rule objects are validated by Trace_C06. The compiled-regex cache has its own timed model (RegexCache.tla: compile on first use, cleanup by interval / idle time, recompile, discard_regex, policy change, clear on retag): TLC checks its design properties on exact ticks (MC_RegexCache), generates operation scripts in simulation mode that are replayed on real engines with real sleeps, and Trace_Regex validates the recorded run (clock readings taken around every call as intervals, three-valued comparisons, subset construction) - every answer in that run is compared with a fresh engine's.",
   "note": TB + "In the history stages real time is replaced by explicit discards and an aggressive discard policy (the RegexCache stage uses the real clock); a cache life cycle that differs from RegexCache.tla without changing an answer is reported as drift, not as a violation; the real allocator cannot be forced, so an address-reuse defect is found on the real code only when reuse happens (it did on the pre-fix tree). Cosmetic queries are not part of these histories (covered by C16/C08).",
  },
  "C07": {
